@@ -667,10 +667,61 @@ def transmission_map(chk, _):
     chk.decided(f'{pre}/integral over the requested quadrature divided by the volume, labelled with detector positions and wavelengths',
                 out == ('DataArray', ('quotient', 'INTEGRAL', 'VOLUME'), {'detector_position': 'DETECTORS', 'wavelength': 'WAVELENGTH'}) and rec['kind'] == 'expensive'
                 and (points, weights, det, wl) == ('POINTS', 'WEIGHTS', 'DETECTORS', 'WAVELENGTH'), detail=str(out)[:200])
-    chk.decided(f'{pre}/path-length function bound to the shape, the quadrature points and the beam direction; attenuation bound to the material',
-                getattr(dist, 'func', None) is mod._single_scatter_distance_through_sample and dist.args == (dist.args[0], 'POINTS', 'BEAM') and isinstance(dist.args[0], Shape2)
-                and not dist.keywords and getattr(trans, 'func', None) is mod._transmission_fraction and trans.args == ('MATERIAL',) and not trans.keywords,
-                detail=f'{dist} {trans}'[:300])
+    # the two callables handed to the integrator, by what they DO (a partial, a lambda or a local function are all fine)
+    legs = []
+
+    class Tok(core.MockBase):
+        def __init__(self, tag):
+            self.tag = tag
+
+        def __neg__(self):
+            return Tok(('neg', self.tag))
+
+        def __add__(self, o):
+            return Tok(('sum', self.tag, o.tag))
+
+        def __eq__(self, o):
+            return isinstance(o, Tok) and self.tag == o.tag
+
+        __hash__ = None
+
+    class Shape3(Shape2):
+        def beam_intersection(self, point, direction):
+            legs.append((point, direction))
+            return Tok(('L', len(legs)))
+    saved = (mod._integrate_transmission_fraction, mod.sc)
+    mod._integrate_transmission_fraction, mod.sc = integrate, SC()
+    try:
+        mod.compute_transmission_map(Shape3(), 'MATERIAL', Tok('BEAM'), 'WAVELENGTH', 'DETECTORS', quadrature_kind='cheap')
+    finally:
+        mod._integrate_transmission_fraction, mod.sc = saved
+    dist = rec['args'][0]
+    got = dist(Tok('DIRECTION'))
+    chk.decided(f'{pre}/path-length function: for the quadrature points, the leg against the beam plus the leg along the given direction',
+                legs == [('POINTS', Tok(('neg', 'BEAM'))), ('POINTS', Tok('DIRECTION'))] and got in (Tok(('sum', ('L', 1), ('L', 2))), Tok(('sum', ('L', 2), ('L', 1)))),
+                detail=f'{[(p_, getattr(d_, "tag", d_)) for p_, d_ in legs]} -> {getattr(got, "tag", got)}'[:300])
+    # the attenuation function is evaluated on model values with the material of the call
+    mat_calls = []
+
+    class Material2(core.MockBase):
+        def attenuation_coefficient(self, wavelength):
+            mat_calls.append(wavelength)
+            return arg('mu', 'one', dtype=F64, unit=umu, kind='real')
+    saved = (mod._integrate_transmission_fraction, mod.sc)
+    mod._integrate_transmission_fraction, mod.sc = integrate, SC()
+    try:
+        mod.compute_transmission_map(Shape2(), Material2(), 'BEAM', 'WAVELENGTH', 'DETECTORS', quadrature_kind='cheap')
+    finally:
+        mod._integrate_transmission_fraction, mod.sc = saved
+    trans = rec['args'][1]
+    mk = lambda: (scal('dist', kind='real'), arg('lam', 'length', dtype=F64))
+    paths = chk.explore(lambda: trans(*mk()), base=[], catch=CATCH)
+    ok = len(paths) == 1 and paths[0].kind == 'return' and len(mat_calls) >= 1
+    chk.decided(f'{pre}/attenuation function uses the material of the call', ok, detail=repr(paths[0].value)[:200] if paths else '')
+    if ok:
+        d, lam = mk()
+        chk.prove(f'{pre}/attenuation function: exp(-mu(lambda)*L) for the material of the call', hyps_of(paths[0]),
+                  z3.And(paths[0].value.val == EXP(-(R('mu') * R('k_mu') * d.si)), mat_calls[-1].si == lam.si), timeout=60)
 
 
 def transmission_lemmas(chk):
